@@ -456,9 +456,10 @@ PROPS.update({
         "technique": "Coq theorems (every list-valued answer has a specified order depending only on what was recorded) + model correspondence comparing returned order + repetition runs in fresh instances",
         "level_text": "Theorems in Coq: the reported child indices are bytewise sorted and hence a function of the set of registered keys (two histories registering the same keys in any order give identical lists), call children are in entry order; "
                       "the model itself is a function, so equal inputs give equal results. PARTIAL by nature: Go's randomised map iteration and shared mutable package-level values are runtime behaviour; they are detected by comparing returned order against the model "
-                      "and by replaying the same history/transaction in fresh instances (20-200 times, interleaved with unrelated executions) and comparing complete serialisations.",
-        "level_note": COMMON_NOTE + "Not modelled: Go map iteration order, allocator, shared package-level uint256 constants (their in-place mutation would show as a difference between the first and later replays in one process).",
-        "rule": "2/3 tracer histories (10..60 operations, several children per parent) replayed R times, 1/3 whole transactions (exec scenarios with journal instructions and Aspects) replayed 4 times; non-trivial = any; distinct = (kind, seed)",
+                      "and by replaying the same history/transaction in fresh instances (20-200 times, interleaved with unrelated executions) and comparing complete serialisations; every transaction is additionally executed as the first execution of a fresh child process "
+                      "(vh determinism-one) and must give the same serialisation as in the warm process that has already run unrelated executions, including calls with a context to the Artela precompiles.",
+        "level_note": COMMON_NOTE + "Not modelled: Go map iteration order, allocator, shared package-level uint256 constants (their in-place mutation, or a context kept in a shared precompile instance, shows as a difference between the fresh-process run and the warm-process replays).",
+        "rule": "2/3 tracer histories (10..60 operations, several children per parent) replayed R times, 1/3 whole transactions (exec scenarios with journal instructions and Aspects) replayed 4 times in-process plus once in a fresh process; non-trivial = any; distinct = (kind, seed)",
         "modelled": ["vm/tracer.go query functions"],
         "assumptions": [],
     },
